@@ -1,5 +1,5 @@
 #!/usr/bin/env python3
-"""seed_process.py <worktree> <property> <module> <pkgdir> <name> [<seed-subdir>=SEED] [--other <subdir>] [--race] [--tags verif]
+"""seed_process.py <worktree> <property> <module> <pkgdir> <name> [<seed-subdir>=SEED] [--other <subdir>] [--race] [--tags verif] [--run REGEX]
 
 Confirms a seeded change delivered by an independent agent in <worktree>/<seed-subdir> (patch.diff, *_test.go, notes.md):
  existing tests of the package pass with it, the demonstration fails with it and passes without it; then runs the
@@ -28,6 +28,7 @@ def main():
     sub = "SEED"
     other = None
     extra = ""
+    runre = "Seed"
     i = 0
     while i < len(rest):
         if rest[i] == "--other":
@@ -36,6 +37,9 @@ def main():
         elif rest[i] == "--race":
             extra += " -race"
             i += 1
+        elif rest[i] == "--run":
+            runre = rest[i + 1]
+            i += 2
         elif rest[i] == "--tags":
             extra += " -tags " + rest[i + 1]
             i += 2
@@ -58,9 +62,9 @@ def main():
         demos = glob.glob(os.path.join(sd, "*_test.go"))
         for f in demos:
             shutil.copy(f, os.path.join(moddir, pkg, "zz_seed_" + os.path.basename(f)))
-        rc_with, out_with = sh("go test -vet=off -count=1%s -run 'Seed' ./%s/" % (extra, pkg), cwd=moddir)
+        rc_with, out_with = sh("go test -vet=off -count=1%s -run '%s' ./%s/" % (extra, runre, pkg), cwd=moddir)
         sh("git -C %s apply -R %s/patch.diff" % (wt, sd))
-        rc_without, out_without = sh("go test -vet=off -count=1%s -run 'Seed' ./%s/" % (extra, pkg), cwd=moddir)
+        rc_without, out_without = sh("go test -vet=off -count=1%s -run '%s' ./%s/" % (extra, runre, pkg), cwd=moddir)
         sh("git -C %s apply %s/patch.diff" % (wt, sd))
         for f in glob.glob(os.path.join(moddir, pkg, "zz_seed_*_test.go")):
             os.remove(f)
